@@ -35,6 +35,8 @@ class _State:
     crash_at = None
     torn = None
     faults = None
+    read_fault = None  # (path suffix, nth open for reading, errno): that open() fails
+    read_fault_seen = 0
     gate = None  # (rfd, wfd, actor)
     root = None
     armed = False
@@ -171,6 +173,11 @@ def _shim_open(file, mode="r", buffering=-1, encoding=None, errors=None, newline
         return _REAL["open"](file, mode, buffering, encoding, errors, newline, closefd, opener)
     if not writing:
         _step("open_r", file, False)
+        rf = S.read_fault
+        if rf is not None and os.fspath(file).endswith(rf[0]):
+            S.read_fault_seen += 1
+            if S.read_fault_seen == rf[1]:
+                raise OSError(rf[2], os.strerror(rf[2]), os.fspath(file))
         return _REAL["open"](file, mode, buffering, encoding, errors, newline, closefd, opener)
     e = _step("open_w", file, True, mode)
     if e is not None:
@@ -245,7 +252,7 @@ class ChildResult:
         return self.payload is not None and self.payload.get("exc") is None
 
 
-def run_child(prepare, act, root, mode="trace", crash_at=None, torn=None, faults=None, timeout=60, trace_all=False):
+def run_child(prepare, act, root, mode="trace", crash_at=None, torn=None, faults=None, timeout=60, trace_all=False, read_fault=None):
     """Fork; child: state = prepare(); install shim; arm; act(state). Returns ChildResult.
 
     payload = {"exc": None | (type name, str, errno), "ret": <picklable>, "trace": [...], "steps": n}
@@ -265,6 +272,8 @@ def run_child(prepare, act, root, mode="trace", crash_at=None, torn=None, faults
             S.crash_at = crash_at
             S.torn = torn
             S.faults = dict(faults) if faults else None
+            S.read_fault = tuple(read_fault) if read_fault else None
+            S.read_fault_seen = 0
             out = {"exc": None, "ret": None}
             arm()
             try:
